@@ -568,6 +568,24 @@ flow main
 """,
         [[["ev", 0, None], ["finished", 0], ["ev", 1, None]], [["ev", 1, None], ["ev", 0, None], ["finished", 0]], [["finished", 0], ["ev", 0, None], ["ev", 0, None]]],
     ),
+    # an action outlives the flow that started it (stopped, not yet Finished); a flow that never held a reference matches the
+    # action's Finished event by the action's start arguments; idle time passes before the Finished event arrives (C11-F38)
+    "orphan-action-watched": (
+        """flow talker
+  start UtteranceBotAction(script="Hello")
+
+flow watcher
+  match UtteranceBotAction(script="Hello").Finished()
+  send OutSeen()
+
+flow main
+  activate watcher
+  match Ev0()
+  start talker
+  match Never()
+""",
+        [[["ev", 0, None], ["ev", 1, None], ["finished", 0]], [["ev", 0, None], ["finished", 0], ["ev", 1, None]], [["ev", 0, None], ["ev", 1, None], ["ev", 1, None], ["finished", 0], ["ev", 0, None]]],
+    ),
     # one list reachable through two variables, changed in place after the cut (C11-F25, open)
     "alias-list": (
         """flow main
